@@ -661,6 +661,8 @@ class QueryPlanner:
 
     def plan_insert(self, query):
         table = query.table
+        if not isinstance(table, Identifier):
+            raise PlanningException(f'Table name is expected, got: {table}')
         if query.from_select is not None:
             integration_name = query.table.parts[0]
 
